@@ -21,7 +21,7 @@ func init() {
 		Run: func(out *rec.Out, idx int, rng *rec.Rng, tier string, stats map[string]int) {
 			o := genOpts{
 				kinds:    []string{"task", "task", "seq", "seq", "xor", "par", "loop", "sub", "sub", "sub"},
-				maxNodes: 12, maxDepth: 4, subLevels: 3, sortedAnswers: true, noFrame: true, noStop: true,
+				maxNodes: 12, maxDepth: 4, subLevels: 3, sortedAnswers: true, noFrame: true, noStop: true, dataObjects: true,
 			}
 			if tier == "thorough" {
 				o.maxNodes = 20
